@@ -1,103 +1,765 @@
-//! spike (to be replaced)
-use std::str::FromStr;
+//! C10 correspondence scenario: random request sequences (create/remove publisher, RFC 8181
+//! publish and list queries, RRDP update, session reset) against the real
+//! `RepositoryManager`, in-process, on memory storage with the repository files under
+//! `<out>/srv-*/repo`. After every request the complete publication state is observed:
+//! registry (`publishers`, `get_publisher_details`), published and staged objects of every
+//! publisher (the stored `RepositoryContent`, read through a second `WalStore` on the same
+//! storage), plus what `list` and `get_publisher_details` answer for every handle of the
+//! scenario. Every transition is written as a Coq `case` for pubd/PubdCheck.v.
+//!
+//! Abstraction (trusted): URI strings -> structural `uri` (scheme spelling, case-folded
+//! authority + spelling, case-folded module + spelling, path segments), handles -> segment
+//! lists, contents and hashes -> interned numbers (hash id = content id of the content it is
+//! the SHA-256 of), errors -> small enum. Hash-map orders are irrelevant (Coq compares sets).
+use std::collections::{BTreeMap, BTreeSet, HashMap};
+use std::io::Write;
 use std::path::Path;
+use std::str::FromStr;
+
 use bytes::Bytes;
 use krill::api::admin::PublicationServerUris;
 use krill::commons::actor::Actor;
+use krill::commons::error::Error;
 use krill::commons::eventsourcing::WalStore;
 use krill::commons::storage::StorageSystem;
 use krill::config::Config;
 use krill::constants::PUBSERVER_CONTENT_NS;
-use krill::server::pubd::RepositoryContent;
+use krill::server::pubd::{PublicationDeltaError, RepositoryContent};
 use krill::server::runtime::KrillRuntime;
 use rpki::ca::idexchange::{Handle, MyHandle, PublisherHandle, PublisherRequest};
-use rpki::ca::publication::{self, Base64, PublishDelta, Publish, Update, Withdraw};
+use rpki::ca::publication::{self, Base64, Publish, PublishDelta, Update, Withdraw};
 use rpki::uri;
+use serde_json::{Value, json};
 
-use kvh::util::Args;
+use kvh::util::{Args, CaseWriter, Rng, coq_list, write_json};
 
-fn mk_runtime(out: &Path, seed: u64, tokio: &tokio::runtime::Runtime) -> KrillRuntime {
-    let dir = out.join(format!("srv-{seed}"));
-    std::fs::create_dir_all(&dir).unwrap();
+const HEADER: &str = "From KV Require Import base.Tac pubd.Objects pubd.Staged pubd.Access pubd.Content pubd.PubdCheck.\nOpen Scope N_scope.";
+const EVALS: [&str; 9] = ["agrees", "ok_reply", "ok_atomic", "ok_effect", "ok_isolation", "ok_disjoint", "ok_jail", "ok_obs", "ok_staged"];
+
+// ---------------------------------------------------------------- abstraction
+
+#[derive(Clone, Debug, PartialEq, Eq, PartialOrd, Ord)]
+struct AUri { scheme: u64, auth: u64, authv: u64, module: u64, modv: u64, path: Vec<u64> }
+#[derive(Clone, Debug, PartialEq, Eq, PartialOrd, Ord)]
+struct AJail { auth: u64, module: u64, path: Vec<u64> }
+#[derive(Clone, Debug, PartialEq, Eq, PartialOrd, Ord)]
+enum AElem { Pub(AUri, u64, u64), Upd(AUri, u64, u64, u64), Wdr(AUri, u64) }
+
+#[derive(Default)]
+struct Interner {
+    segs: HashMap<String, u64>,
+    auths: HashMap<String, u64>,
+    spellings: HashMap<String, u64>,
+    mods: HashMap<String, u64>,
+    contents: HashMap<String, u64>, // base64 text -> content id
+    hashes: HashMap<String, u64>,   // hex hash -> id (= content id where the content is known)
+    next_unknown: u64,
+}
+
+impl Interner {
+    fn new() -> Self {
+        let mut i = Interner::default();
+        i.segs.insert("ta".into(), 0); // Access.ta_seg
+        i.next_unknown = 1_000_000;
+        i
+    }
+    fn seg(&mut self, s: &str) -> u64 { let n = self.segs.len() as u64; *self.segs.entry(s.to_string()).or_insert(n) }
+    /// 0 for the all-lower-case spelling, otherwise a number of its own per spelling.
+    fn spelling(&mut self, s: &str) -> u64 {
+        if s == s.to_ascii_lowercase() { return 0 }
+        let n = self.spellings.len() as u64 + 1;
+        *self.spellings.entry(s.to_string()).or_insert(n)
+    }
+    fn auth(&mut self, s: &str) -> (u64, u64) {
+        let n = self.auths.len() as u64 + 1;
+        let id = *self.auths.entry(s.to_ascii_lowercase()).or_insert(n);
+        (id, self.spelling(s))
+    }
+    fn module(&mut self, s: &str) -> (u64, u64) {
+        let n = self.mods.len() as u64 + 1;
+        let id = *self.mods.entry(s.to_ascii_lowercase()).or_insert(n);
+        (id, self.spelling(s))
+    }
+    fn handle(&mut self, h: &str) -> Vec<u64> { h.split('/').map(|s| self.seg(s)).collect() }
+    fn uri(&mut self, s: &str) -> AUri {
+        let (scheme, rest) = s.split_once("://").expect("uri scheme");
+        let mut it = rest.split('/');
+        let (auth, authv) = self.auth(it.next().expect("authority"));
+        let (module, modv) = self.module(it.next().expect("module"));
+        let path: Vec<u64> = it.filter(|x| !x.is_empty()).map(|x| self.seg(x)).collect();
+        let scheme = if scheme == "rsync" { 0 } else { self.spelling(scheme).max(1) };
+        AUri { scheme, auth, authv, module, modv, path }
+    }
+    fn jail(&mut self, s: &str) -> AJail { let u = self.uri(s); AJail { auth: u.auth, module: u.module, path: u.path } }
+    fn new_content(&mut self, id: u64) -> (Bytes, Base64, rpki::rrdp::Hash) {
+        let bytes = Bytes::from(format!("object content #{id}"));
+        let b64 = Base64::from_content(&bytes);
+        let hash = b64.to_hash();
+        self.contents.insert(b64.to_string(), id);
+        self.hashes.insert(hash.to_string(), id);
+        (bytes, b64, hash)
+    }
+    fn content_id(&mut self, b64: &str) -> (u64, u64) {
+        if let Some(c) = self.contents.get(b64) { return (*c, *c) }
+        // content not generated by this harness: intern it with its real hash
+        let v: Base64 = serde_json::from_value(json!(b64)).expect("base64");
+        let hx = v.to_hash().to_string();
+        let n = self.next_unknown; self.next_unknown += 1;
+        self.contents.insert(b64.to_string(), n);
+        let h = *self.hashes.entry(hx).or_insert(n);
+        (h, n)
+    }
+    fn hash_id(&mut self, hex: &str) -> u64 {
+        if let Some(h) = self.hashes.get(hex) { return *h }
+        let n = self.next_unknown; self.next_unknown += 1;
+        self.hashes.insert(hex.to_string(), n);
+        n
+    }
+}
+
+fn coq_nlist(v: &[u64]) -> String { format!("[{}]", v.iter().map(|x| x.to_string()).collect::<Vec<_>>().join("; ")) }
+fn coq_uri(u: &AUri) -> String { format!("(U {} {} {} {} {} {})", u.scheme, u.auth, u.authv, u.module, u.modv, coq_nlist(&u.path)) }
+fn coq_jail(j: &AJail) -> String { format!("(J {} {} {})", j.auth, j.module, coq_nlist(&j.path)) }
+fn coq_elem(e: &AElem) -> String {
+    match e {
+        AElem::Pub(u, h, c) => format!("Pub {} ({}, {})", coq_uri(u), h, c),
+        AElem::Upd(u, old, h, c) => format!("Upd {} {} ({}, {})", coq_uri(u), old, h, c),
+        AElem::Wdr(u, old) => format!("Wdr {} {}", coq_uri(u), old),
+    }
+}
+
+/// The observed server state in model terms.
+#[derive(Clone, Debug, PartialEq, Eq)]
+struct MState {
+    base: AJail,
+    pubs: Vec<(String, AJail)>,
+    snap: BTreeMap<String, Vec<(AUri, u64, u64)>>,
+    staged: BTreeMap<String, Vec<AElem>>,
+    serial: u64,
+    /// raw strings, for classification and generation only
+    snap_raw: BTreeMap<String, Vec<(String, u64)>>,
+    staged_raw: BTreeMap<String, Vec<String>>,
+}
+
+fn coq_state(s: &MState, it: &mut Interner) -> String {
+    let pubs: Vec<String> = s.pubs.iter().map(|(h, j)| format!("({}, {})", coq_nlist(&it.handle(h)), coq_jail(j))).collect();
+    let snap: Vec<String> = s.snap.iter().map(|(h, objs)| {
+        let os: Vec<String> = objs.iter().map(|(u, hh, c)| format!("({}, ({}, {}))", coq_uri(u), hh, c)).collect();
+        format!("({}, {})", coq_nlist(&it.handle(h)), coq_list(&os))
+    }).collect();
+    let staged: Vec<String> = s.staged.iter().map(|(h, els)| {
+        format!("({}, {})", coq_nlist(&it.handle(h)), coq_list(&els.iter().map(coq_elem).collect::<Vec<_>>()))
+    }).collect();
+    format!("(mkState {} {} {} {} {})", coq_jail(&s.base), coq_list(&pubs), coq_list(&snap), coq_list(&staged), s.serial)
+}
+
+// ---------------------------------------------------------------- the real server
+
+struct Server {
+    krill: KrillRuntime,
+    shadow: WalStore<RepositoryContent>,
+    base: String,
+    id_b64: Base64,
+    actor: Actor,
+}
+
+fn mk_server(out: &Path, tag: &str, seed: u64, base: &str, tokio: &tokio::runtime::Runtime) -> Server {
+    let dir = out.join(format!("srv-{tag}"));
+    std::fs::create_dir_all(&dir).expect("mkdir");
     let toml = format!(
         "admin_token = \"secret\"\nstorage_uri = \"memory:{seed}\"\nrepo_dir = \"{d}/repo\"\ntls_keys_dir = \"{d}/ssl\"\npid_file = \"{d}/krill.pid\"\nlog_type = \"stderr\"\nlog_level = \"off\"\nrrdp_delta_interval_min_seconds = 0\n",
         d = dir.display());
     let cf = dir.join("krill.conf");
-    std::fs::write(&cf, toml).unwrap();
+    std::fs::write(&cf, toml).expect("write config");
     let mut cfg = Config::read_config(&cf).expect("config");
-    cfg.process().expect("process");
+    cfg.process().expect("config process");
     let storage = StorageSystem::new(cfg.storage_uri.clone());
-    KrillRuntime::new(cfg, storage, tokio.handle().clone()).expect("runtime")
+    let krill = KrillRuntime::new(cfg, storage, tokio.handle().clone()).expect("runtime");
+    let uris = PublicationServerUris {
+        rrdp_base_uri: uri::Https::from_str("https://localhost/repo/rrdp/").unwrap(),
+        rsync_jail: uri::Rsync::from_str(base).unwrap(),
+    };
+    krill.repo_manager().init(uris, &krill).expect("repository init");
+    let id_cert = krill.signer().create_self_signed_id_cert().expect("id cert");
+    let id_b64 = krill::api::ca::IdCertInfo::from(id_cert).base64.clone();
+    let shadow = WalStore::create(krill.storage(), PUBSERVER_CONTENT_NS).expect("shadow store");
+    Server { krill, shadow, base: base.to_string(), id_b64, actor: krill::constants::ACTOR_DEF_KRILL }
+}
+
+impl Server {
+    fn observe(&self, it: &mut Interner) -> MState {
+        let repo = self.krill.repo_manager();
+        let mut pubs = Vec::new();
+        let mut handles: Vec<String> = repo.publishers().expect("publishers").iter().map(|h| h.to_string()).collect();
+        handles.sort();
+        for h in handles {
+            let d = repo.get_publisher_details(PublisherHandle::from_str(&h).unwrap()).expect("details of registered publisher");
+            pubs.push((h, it.jail(d.base_uri.as_str())));
+        }
+        let content = self.shadow.get_latest(&MyHandle::from_str("0").unwrap()).expect("content");
+        let v = serde_json::to_value(&*content).expect("content json");
+        let rrdp = &v["rrdp"];
+        let mut snap = BTreeMap::new();
+        let mut snap_raw = BTreeMap::new();
+        for (h, objs) in rrdp["snapshot"]["publishers_current_objects"].as_object().expect("snapshot map") {
+            let mut l = Vec::new();
+            let mut r = Vec::new();
+            for (u, b64) in objs.as_object().expect("objects") {
+                let (hh, c) = it.content_id(b64.as_str().expect("base64"));
+                l.push((it.uri(u), hh, c));
+                r.push((u.clone(), c));
+            }
+            l.sort(); r.sort();
+            snap.insert(h.clone(), l);
+            snap_raw.insert(h.clone(), r);
+        }
+        let mut staged = BTreeMap::new();
+        let mut staged_raw = BTreeMap::new();
+        for (h, els) in rrdp["staged_elements"].as_object().expect("staged map") {
+            let mut l = Vec::new();
+            let mut r = Vec::new();
+            for (_key, el) in els.as_object().expect("staged elements") {
+                let (kind, body) = el.as_object().expect("element").iter().next().expect("variant");
+                let u = body["uri"].as_str().expect("uri");
+                r.push(u.to_string());
+                let au = it.uri(u);
+                l.push(match kind.as_str() {
+                    "Publish" => { let (hh, c) = it.content_id(body["base64"].as_str().unwrap()); AElem::Pub(au, hh, c) }
+                    "Update" => { let (hh, c) = it.content_id(body["base64"].as_str().unwrap()); AElem::Upd(au, it.hash_id(body["hash"].as_str().unwrap()), hh, c) }
+                    "Withdraw" => AElem::Wdr(au, it.hash_id(body["hash"].as_str().unwrap())),
+                    other => panic!("unknown staged element kind {other}"),
+                });
+            }
+            l.sort(); r.sort();
+            staged.insert(h.clone(), l);
+            staged_raw.insert(h.clone(), r);
+        }
+        MState { base: it.jail(&self.base), pubs, snap, staged, serial: rrdp["serial"].as_u64().expect("serial"), snap_raw, staged_raw }
+    }
+}
+
+/// What `list` and `get_publisher_details` answer for one handle.
+struct HObs { handle: String, list: Vec<(String, AUri, u64)>, details: Option<(AJail, Vec<(String, AUri, u64)>)> }
+
+fn observe_handle(srv: &Server, h: &str, it: &mut Interner) -> HObs {
+    let repo = srv.krill.repo_manager();
+    let ph = PublisherHandle::from_str(h).unwrap();
+    let mut list: Vec<(String, AUri, u64)> = repo.list(&ph).expect("list").elements().iter()
+        .map(|e| (e.uri().to_string(), it.uri(e.uri().as_str()), it.hash_id(&e.hash().to_string()))).collect();
+    list.sort();
+    let details = match repo.get_publisher_details(ph) {
+        Ok(d) => {
+            let mut files: Vec<(String, AUri, u64)> = d.current_files.iter()
+                .map(|f| (f.uri.to_string(), it.uri(f.uri.as_str()), it.content_id(f.base64.as_str()).1)).collect();
+            files.sort();
+            Some((it.jail(d.base_uri.as_str()), files))
+        }
+        Err(_) => None,
+    };
+    HObs { handle: h.to_string(), list, details }
+}
+
+fn coq_obs(o: &HObs, it: &mut Interner) -> String {
+    let l: Vec<String> = o.list.iter().map(|(_, u, h)| format!("({}, {})", coq_uri(u), h)).collect();
+    let d = match &o.details {
+        None => "None".to_string(),
+        Some((j, files)) => format!("(Some ({}, {}))", coq_jail(j), coq_list(&files.iter().map(|(_, u, c)| format!("({}, {})", coq_uri(u), c)).collect::<Vec<_>>())),
+    };
+    format!("(mkObs {} {} {})", coq_nlist(&it.handle(&o.handle)), coq_list(&l), d)
+}
+
+// ---------------------------------------------------------------- requests
+
+#[derive(Clone, Debug)]
+enum GElem { Pub { uri: String, content: u64 }, Upd { uri: String, old: u64, content: u64 }, Wdr { uri: String, old: u64 } }
+#[derive(Clone, Debug)]
+enum GOp { Create(String), Remove(String), Publish(String, Vec<GElem>, &'static str), List(String), Update, Reset }
+
+fn semantic_key(u: &str) -> String {
+    // RFC 3986 identity: scheme and host are case-insensitive, the rest is not
+    let (scheme, rest) = u.split_once("://").unwrap();
+    let (auth, tail) = rest.split_once('/').unwrap();
+    format!("{}://{}/{}", scheme.to_ascii_lowercase(), auth.to_ascii_lowercase(), tail)
+}
+fn incoherent(u: &str) -> bool {
+    // spelling on which CurrentObjectUri and uri::Rsync equality disagree (finding F10b)
+    let (scheme, rest) = u.split_once("://").unwrap();
+    let auth = rest.split('/').next().unwrap();
+    scheme != "rsync" && auth == auth.to_ascii_lowercase()
+}
+fn jail_str(base: &str, h: &str) -> String { if h == "ta" { base.to_string() } else { format!("{base}{h}/") } }
+fn jails_nest(base: &str, a: &str, b: &str) -> bool {
+    let (ja, jb) = (jail_str(base, a), jail_str(base, b));
+    ja.starts_with(&jb) || jb.starts_with(&ja)
+}
+
+struct Gen<'a> { rng: &'a mut Rng, next_content: u64, scheme_case: bool, fresh: u64 }
+
+const NAMES: [&str; 7] = ["x.cer", "y.roa", "z.mft", "sub/x.cer", "sub/deep/w.crl", "X.cer", "sub/y.roa"];
+
+impl Gen<'_> {
+    fn content(&mut self, it: &mut Interner) -> u64 { let c = self.next_content; self.next_content += 1; it.new_content(c); c }
+    /// Re-spell scheme / authority / module of a URI string without changing its identity
+    /// (authority, scheme) or its jail membership (module).
+    fn respell(&mut self, u: &str) -> String {
+        let (scheme, rest) = u.split_once("://").unwrap();
+        let mut parts = rest.splitn(3, '/');
+        let (auth, module, tail) = (parts.next().unwrap(), parts.next().unwrap(), parts.next().unwrap_or(""));
+        let mut scheme = scheme.to_string();
+        let mut auth = auth.to_string();
+        let mut module = module.to_string();
+        match self.rng.below(100) {
+            0..=11 => auth = auth.to_ascii_uppercase(),
+            12..=17 => auth = { let mut c = auth.chars(); match c.next() { Some(f) => f.to_ascii_uppercase().to_string() + c.as_str(), None => auth.clone() } },
+            18..=20 => module = module.to_ascii_uppercase(),
+            _ => {}
+        }
+        if self.scheme_case && self.rng.chance(25) { scheme = if self.rng.chance(50) { "RSYNC".into() } else { "Rsync".into() } }
+        format!("{scheme}://{auth}/{module}/{tail}")
+    }
+    fn new_name(&mut self, taken: &BTreeSet<String>, jail: &str) -> String {
+        for _ in 0..6 {
+            let n = *self.rng.pick(&NAMES);
+            let u = format!("{jail}{n}");
+            if !taken.contains(&semantic_key(&u)) { return u }
+        }
+        self.fresh += 1;
+        format!("{jail}f{}.roa", self.fresh)
+    }
+}
+
+/// `view`: what the publisher currently holds (URI string as stored, content id).
+fn gen_delta(g: &mut Gen, it: &mut Interner, base: &str, h: &str, view: &[(String, u64)], others: &[(String, Vec<(String, u64)>)], nested_target: Option<&(String, Vec<(String, u64)>)>) -> (Vec<GElem>, &'static str) {
+    let jail = jail_str(base, h);
+    let mut taken: BTreeSet<String> = view.iter().map(|(u, _)| semantic_key(u)).collect();
+    let mut used: BTreeSet<String> = BTreeSet::new();
+    let mut els: Vec<GElem> = Vec::new();
+    let kind = match g.rng.below(100) {
+        0..=59 => "valid", 60..=66 => "wrong_hash", 67..=72 => "publish_existing", 73..=78 => "update_missing",
+        79..=85 => "outside_jail", 86..=91 => "other_publisher_jail", 92..=96 => "bad_last", 97..=98 => "duplicate_uri", _ => "empty",
+    };
+    if kind == "empty" { return (els, kind) }
+    let n = g.rng.range(1, 8) as usize;
+    // the valid part
+    let n_valid = if kind == "valid" || kind == "bad_last" || kind == "duplicate_uri" { n } else { g.rng.below(n as u64) as usize };
+    for _ in 0..n_valid {
+        let existing: Vec<&(String, u64)> = view.iter().filter(|(u, _)| !used.contains(&semantic_key(u))).collect();
+        let r = g.rng.below(100);
+        if !existing.is_empty() && r < 40 {
+            let (u, c) = (*g.rng.pick(&existing)).clone();
+            used.insert(semantic_key(&u));
+            let nc = g.content(it);
+            els.push(GElem::Upd { uri: g.respell(&u), old: c, content: nc });
+        } else if !existing.is_empty() && r < 62 {
+            let (u, c) = (*g.rng.pick(&existing)).clone();
+            used.insert(semantic_key(&u));
+            els.push(GElem::Wdr { uri: g.respell(&u), old: c });
+        } else {
+            let u = g.new_name(&taken, &jail);
+            taken.insert(semantic_key(&u)); used.insert(semantic_key(&u));
+            let nc = g.content(it);
+            els.push(GElem::Pub { uri: g.respell(&u), content: nc });
+        }
+    }
+    // the offending element
+    let bad = |g: &mut Gen, it: &mut Interner, which: &str| -> Option<GElem> {
+        let existing: Vec<&(String, u64)> = view.iter().filter(|(u, _)| !used.contains(&semantic_key(u))).collect();
+        match which {
+            "wrong_hash" => {
+                if existing.is_empty() { let u = g.new_name(&taken, &jail); let c = g.content(it); return Some(GElem::Wdr { uri: u, old: c }) }
+                let (u, _) = (*g.rng.pick(&existing)).clone();
+                let wrong = g.content(it); // hash of a content that was never published
+                if g.rng.chance(50) { let nc = g.content(it); Some(GElem::Upd { uri: g.respell(&u), old: wrong, content: nc }) }
+                else { Some(GElem::Wdr { uri: g.respell(&u), old: wrong }) }
+            }
+            "publish_existing" => {
+                if existing.is_empty() { return None }
+                let (u, _) = (*g.rng.pick(&existing)).clone();
+                let nc = g.content(it);
+                Some(GElem::Pub { uri: g.respell(&u), content: nc })
+            }
+            "update_missing" => {
+                let u = g.new_name(&taken, &jail);
+                let c = g.content(it);
+                if g.rng.chance(50) { let nc = g.content(it); Some(GElem::Upd { uri: u, old: c, content: nc }) } else { Some(GElem::Wdr { uri: u, old: c }) }
+            }
+            "outside_jail" => {
+                let name = *g.rng.pick(&NAMES);
+                let hd = h.trim_end_matches('/');
+                let u = match g.rng.below(6) {
+                    0 => format!("{base}{hd}2/{name}"),                 // look-alike sibling
+                    1 => format!("{base}{hd}{name}"),                   // string prefix, not a path prefix
+                    2 => if h == "ta" { format!("rsync://localhost/other/{name}") } else { format!("{base}{name}") }, // parent directory
+                    3 => format!("rsync://localhost/other/{hd}/{name}"), // other module
+                    4 => format!("rsync://otherhost/repo/{hd}/{name}"),  // other host
+                    _ => format!("{base}{}/{name}", if hd.chars().next().map(|c| c.is_ascii_lowercase()).unwrap_or(false) { hd.to_ascii_uppercase() } else { hd.to_ascii_lowercase() }), // handle in other case
+                };
+                if uri::Rsync::from_str(&u).is_err() { return None }
+                let nc = g.content(it);
+                Some(GElem::Pub { uri: u, content: nc })
+            }
+            "other_publisher_jail" => {
+                let cands: Vec<&(String, Vec<(String, u64)>)> = others.iter().collect();
+                if cands.is_empty() { return None }
+                let (oh, oview) = (*g.rng.pick(&cands)).clone();
+                if !oview.is_empty() && g.rng.chance(60) {
+                    let (u, c) = g.rng.pick(&oview).clone();
+                    match g.rng.below(3) {
+                        0 => Some(GElem::Wdr { uri: u, old: c }),
+                        1 => { let nc = g.content(it); Some(GElem::Upd { uri: u, old: c, content: nc }) }
+                        _ => { let nc = g.content(it); Some(GElem::Pub { uri: u, content: nc }) }
+                    }
+                } else {
+                    let name = *g.rng.pick(&NAMES);
+                    let nc = g.content(it);
+                    Some(GElem::Pub { uri: format!("{}{name}", jail_str(base, &oh)), content: nc })
+                }
+            }
+            _ => None,
+        }
+    };
+    match kind {
+        "valid" => {}
+        "bad_last" => {
+            let which = *g.rng.pick(&["wrong_hash", "publish_existing", "update_missing", "outside_jail", "other_publisher_jail"]);
+            if let Some(e) = bad(g, it, which) { els.push(e) }
+            return (els, kind); // message order kept: the bad element is last
+        }
+        "duplicate_uri" => {
+            if let Some(e) = els.first().cloned() {
+                let dup = match e {
+                    GElem::Pub { uri, .. } => { let nc = g.content(it); GElem::Pub { uri, content: nc } }
+                    GElem::Upd { uri, old, .. } => if g.rng.chance(50) { GElem::Wdr { uri, old } } else { let nc = g.content(it); GElem::Upd { uri, old, content: nc } },
+                    GElem::Wdr { uri, old } => GElem::Wdr { uri, old },
+                };
+                els.push(dup);
+            }
+        }
+        other => { if let Some(e) = bad(g, it, other) { els.push(e) } }
+    }
+    // nested jails (finding F10a): the outer publisher names a URI the inner one holds / may hold
+    if let Some((oh, oview)) = nested_target {
+        if g.rng.chance(60) {
+            let nc = g.content(it);
+            let u = if !oview.is_empty() && g.rng.chance(70) { g.rng.pick(oview).0.clone() } else { format!("{}{}", jail_str(base, oh), g.rng.pick(&NAMES)) };
+            if !used.contains(&semantic_key(&u)) && !taken.contains(&semantic_key(&u)) { els.push(GElem::Pub { uri: u, content: nc }) }
+        }
+    }
+    // shuffle message order
+    for i in (1..els.len()).rev() { let j = g.rng.below(i as u64 + 1) as usize; els.swap(i, j) }
+    (els, kind)
+}
+
+fn abstract_elem(e: &GElem, it: &mut Interner) -> AElem {
+    match e {
+        GElem::Pub { uri, content } => AElem::Pub(it.uri(uri), *content, *content),
+        GElem::Upd { uri, old, content } => AElem::Upd(it.uri(uri), *old, *content, *content),
+        GElem::Wdr { uri, old } => AElem::Wdr(it.uri(uri), *old),
+    }
+}
+
+fn coq_op(op: &GOp, it: &mut Interner) -> String {
+    match op {
+        GOp::Create(h) => format!("(OCreate {})", coq_nlist(&it.handle(h))),
+        GOp::Remove(h) => format!("(ORemove {})", coq_nlist(&it.handle(h))),
+        GOp::List(h) => format!("(OList {})", coq_nlist(&it.handle(h))),
+        GOp::Update => "OUpdate".into(),
+        GOp::Reset => "OReset".into(),
+        GOp::Publish(h, els, _) => {
+            let es: Vec<String> = els.iter().map(|e| coq_elem(&abstract_elem(e, it))).collect();
+            format!("(OPublish {} {})", coq_nlist(&it.handle(h)), coq_list(&es))
+        }
+    }
+}
+
+fn json_op(op: &GOp) -> Value {
+    match op {
+        GOp::Create(h) => json!({"op": "create_publisher", "handle": h}),
+        GOp::Remove(h) => json!({"op": "remove_publisher", "handle": h}),
+        GOp::List(h) => json!({"op": "list", "handle": h}),
+        GOp::Update => json!({"op": "update_rrdp_if_needed"}),
+        GOp::Reset => json!({"op": "rrdp_session_reset"}),
+        GOp::Publish(h, els, kind) => json!({"op": "publish", "handle": h, "generator_class": kind, "elements": els.iter().map(|e| match e {
+            GElem::Pub { uri, content } => json!({"publish": uri, "content": content}),
+            GElem::Upd { uri, old, content } => json!({"update": uri, "old_hash_of": old, "content": content}),
+            GElem::Wdr { uri, old } => json!({"withdraw": uri, "hash_of": old}),
+        }).collect::<Vec<_>>()}),
+    }
+}
+
+/// Executes one request on the real server; returns the reply as a Coq term or an unexpected error.
+fn execute(srv: &Server, op: &GOp, it: &mut Interner) -> Result<String, String> {
+    let repo = srv.krill.repo_manager();
+    let delta_err = |e: &PublicationDeltaError| match e {
+        PublicationDeltaError::UriOutsideJail(..) => "(RErrDelta EOutside)",
+        PublicationDeltaError::ObjectAlreadyPresent(..) => "(RErrDelta EPresent)",
+        PublicationDeltaError::NoObjectForHashAndOrUri(..) => "(RErrDelta ENoMatch)",
+    };
+    match op {
+        GOp::Create(h) => {
+            let req = PublisherRequest::new(srv.id_b64.clone(), Handle::from_str(h).unwrap(), None);
+            match repo.create_publisher(req, &srv.actor) {
+                Ok(()) => Ok("RDone".into()),
+                Err(Error::PublisherDuplicate(_)) => Ok("RErrDup".into()),
+                Err(e) => Err(format!("create_publisher: {e}")),
+            }
+        }
+        GOp::Remove(h) => match repo.remove_publisher(PublisherHandle::from_str(h).unwrap(), &srv.actor, &srv.krill) {
+            Ok(()) => Ok("RDone".into()),
+            Err(Error::PublisherUnknown(_)) => Ok("RErrUnknown".into()),
+            Err(e) => Err(format!("remove_publisher: {e}")),
+        },
+        GOp::List(h) => match repo.rfc8181_message(&PublisherHandle::from_str(h).unwrap(), publication::Query::List, &srv.krill) {
+            Ok(publication::Message::Reply(publication::Reply::List(l))) => {
+                let items: Vec<String> = l.elements().iter().map(|e| format!("({}, {})", coq_uri(&it.uri(e.uri().as_str())), it.hash_id(&e.hash().to_string()))).collect();
+                Ok(format!("(RList {})", coq_list(&items)))
+            }
+            Ok(m) => Err(format!("list: unexpected message {m:?}")),
+            Err(e) => Err(format!("list: {e}")),
+        },
+        GOp::Publish(h, els, _) => {
+            let mut d = PublishDelta::empty();
+            for e in els {
+                match e {
+                    GElem::Pub { uri, content } => { let (_, b, _) = it.new_content(*content); d.add_publish(Publish::new(None, uri::Rsync::from_str(uri).unwrap(), b)) }
+                    GElem::Upd { uri, old, content } => { let (_, b, _) = it.new_content(*content); let (_, _, oh) = it.new_content(*old); d.add_update(Update::new(None, uri::Rsync::from_str(uri).unwrap(), b, oh)) }
+                    GElem::Wdr { uri, old } => { let (_, _, oh) = it.new_content(*old); d.add_withdraw(Withdraw::new(None, uri::Rsync::from_str(uri).unwrap(), oh)) }
+                }
+            }
+            match repo.rfc8181_message(&PublisherHandle::from_str(h).unwrap(), publication::Query::Delta(d), &srv.krill) {
+                Ok(publication::Message::Reply(publication::Reply::Success)) => Ok("RDone".into()),
+                Ok(m) => Err(format!("publish: unexpected message {m:?}")),
+                Err(Error::PublisherUnknown(_)) => Ok("RErrUnknown".into()),
+                Err(Error::Rfc8181Delta(e)) => Ok(delta_err(&e).into()),
+                Err(e) => Err(format!("publish: {e}")),
+            }
+        }
+        GOp::Update => match repo.update_rrdp_if_needed() { Ok(None) => Ok("RDone".into()), Ok(Some(t)) => Err(format!("update postponed to {}", t.to_rfc3339())), Err(e) => Err(format!("update_rrdp_if_needed: {e}")) },
+        GOp::Reset => match repo.rrdp_session_reset() { Ok(()) => Ok("RDone".into()), Err(e) => Err(format!("rrdp_session_reset: {e}")) },
+    }
+}
+
+/// current (+) staged of one handle, computed from the raw observations of `list`.
+fn views_of(obs: &[HObs]) -> BTreeMap<String, Vec<(String, u64)>> {
+    obs.iter().map(|o| (o.handle.clone(), o.list.iter().map(|(s, _, h)| (s.clone(), *h)).collect())).collect()
+}
+
+fn shared_nested(base: &str, views: &BTreeMap<String, Vec<(String, u64)>>) -> (bool, bool) {
+    // (some URI held by two handles, some URI held by two handles whose jails nest)
+    let mut owner: HashMap<String, Vec<&String>> = HashMap::new();
+    for (h, v) in views { for (u, _) in v { owner.entry(semantic_key(u)).or_default().push(h) } }
+    let mut any = false; let mut nested = false;
+    for hs in owner.values() {
+        for i in 0..hs.len() { for j in i + 1..hs.len() {
+            if hs[i] != hs[j] { any = true; if jails_nest(base, hs[i], hs[j]) { nested = true } }
+        } }
+    }
+    (any, nested)
+}
+
+fn state_has_incoherent(s: &MState) -> bool {
+    s.snap_raw.values().any(|v| v.iter().any(|(u, _)| incoherent(u))) || s.staged_raw.values().any(|v| v.iter().any(|u| incoherent(u)))
 }
 
 fn main() {
     let args = Args::parse("c10");
+    std::process::exit(run(&args));
+}
+
+fn run(args: &Args) -> i32 {
     krill::constants::enable_test_mode();
-    let tokio = tokio::runtime::Runtime::new().unwrap();
-    let t0 = std::time::Instant::now();
-    let krill = mk_runtime(&args.out, args.seed, &tokio);
-    println!("runtime {:?}", t0.elapsed());
-    let uris = PublicationServerUris {
-        rrdp_base_uri: uri::Https::from_str("https://localhost/repo/rrdp/").unwrap(),
-        rsync_jail: uri::Rsync::from_str("rsync://localhost/repo/").unwrap(),
-    };
-    krill.repo_manager().init(uris, &krill).expect("init");
-    println!("init {:?}", t0.elapsed());
-    let idc = krill.signer().create_self_signed_id_cert().unwrap();
-    println!("idcert {:?}", t0.elapsed());
-    let idb64 = krill::api::ca::IdCertInfo::from(idc).base64.clone();
-    let actor: Actor = krill::constants::ACTOR_DEF_KRILL;
-    let repo = krill.repo_manager();
-    for h in ["alice", "a", "a/b", "ta", "Alice"] {
-        let req = PublisherRequest::new(idb64.clone(), Handle::from_str(h).unwrap(), None);
-        println!("create {h}: {:?}", repo.create_publisher(req, &actor).map_err(|e| e.to_string()));
+    let tokio = tokio::runtime::Runtime::new().expect("tokio");
+    let mut rng = Rng::new(args.seed);
+    let n_episodes = args.get_u64("episodes", if args.thorough() { 1500 } else { 110 });
+    let n_servers = args.get_u64("servers", if args.thorough() { 6 } else { 2 }).max(1);
+    let nested = args.get_u64("nested", 0) == 1;
+    let scheme_case_requested = args.get_u64("schemecase", 0) == 1;
+    let max_len = args.get_u64("maxlen", 40);
+
+    let footer: String = EVALS.iter().map(|e| format!("Eval vm_compute in (failing {e} base_index cases).")).collect::<Vec<_>>().join("\n");
+    let mut w = CaseWriter::new(&args.out, HEADER, "list case", &footer, 250);
+    let mut jsonl = std::fs::File::create(args.out.join("cases.jsonl")).expect("jsonl");
+    let mut it = Interner::new();
+    let mut op_hist: BTreeMap<String, u64> = BTreeMap::new();
+    let mut reply_hist: BTreeMap<String, u64> = BTreeMap::new();
+    let mut delta_hist: BTreeMap<String, u64> = BTreeMap::new();
+    let mut delta_accept: BTreeMap<String, u64> = BTreeMap::new();
+    let mut size_hist: BTreeMap<String, u64> = BTreeMap::new();
+    let mut merge_hist: BTreeMap<String, u64> = BTreeMap::new();
+    let mut class_hist: BTreeMap<String, u64> = BTreeMap::new();
+    let mut distinct: BTreeSet<u64> = BTreeSet::new();
+    let mut samples: Vec<Value> = Vec::new();
+    let mut impl_failures: Vec<Value> = Vec::new();
+    let mut next_content: u64 = 100;
+    let mut fresh: u64 = 0;
+
+    let plain_pool = ["alice", "alice2", "Alice", "bob", "b", "alice-2"];
+    let chain_pool = ["a", "a/b", "a/b/c", "a/bb"];
+    let bases = ["rsync://localhost/repo/", "rsync://localhost/repo/base/"];
+
+    let mut episode_global = 0u64;
+    // Scheme-case spellings (finding F10b) leave objects behind that no removal cleans up, so they
+    // are confined to one additional server instance; the other instances stay coherent.
+    let total_servers = n_servers + if scheme_case_requested { 1 } else { 0 };
+    for sidx in 0..total_servers {
+        let scheme_case = scheme_case_requested && sidx == n_servers;
+        let base = bases[(sidx % 2) as usize];
+        let srv = mk_server(&args.out, &format!("{}-{}", args.seed, sidx), args.seed.wrapping_mul(1009).wrapping_add(sidx), base, &tokio);
+        let eps = if scheme_case { (n_episodes / 6).max(4) } else { n_episodes / n_servers + if sidx < n_episodes % n_servers { 1 } else { 0 } };
+        for _ in 0..eps {
+            episode_global += 1;
+            // ---- the publishers of this episode
+            let k = rng.range(2, 5) as usize;
+            let mut universe: Vec<String> = Vec::new();
+            if nested && rng.chance(75) {
+                // make sure two nested jails are present
+                let pair: [&str; 2] = *rng.pick(&[["a", "a/b"], ["a/b", "a/b/c"], ["a", "a/b/c"], ["ta", "alice"], ["ta", "a/b"]]);
+                universe.push(pair[0].into()); universe.push(pair[1].into());
+            }
+            let mut guard = 0;
+            while universe.len() < k && guard < 50 {
+                guard += 1;
+                let cand: &str = if rng.chance(45) { *rng.pick(&chain_pool) } else { *rng.pick(&plain_pool) };
+                let cand = if nested && rng.chance(8) { "ta" } else { cand };
+                if universe.iter().any(|u| u == cand) { continue }
+                if !nested && universe.iter().any(|u| jails_nest(base, u, cand)) { continue }
+                universe.push(cand.to_string());
+            }
+            let len = rng.range(12, max_len);
+            // ---- requests: first bring the server to the episode's publishers, then random steps
+            let mut script: Vec<GOp> = Vec::new();
+            let pre0 = srv.observe(&mut it);
+            for (h, _) in pre0.pubs.iter() { if !universe.contains(h) || rng.chance(30) { script.push(GOp::Remove(h.clone())) } }
+            if !script.is_empty() { script.push(GOp::Update) }
+            for h in universe.iter() { if rng.chance(85) { script.push(GOp::Create(h.clone())) } }
+            let mut step_no = 0u64;
+            let mut pre = pre0;
+            loop {
+                let scripted = !script.is_empty();
+                if !scripted && step_no >= len { break }
+                // handles whose answers are observed: the universe plus everything in the state
+                let mut watch: BTreeSet<String> = universe.iter().cloned().collect();
+                for (h, _) in pre.pubs.iter() { watch.insert(h.clone()); }
+                for h in pre.snap.keys().chain(pre.staged.keys()) { watch.insert(h.clone()); }
+                let pre_obs: Vec<HObs> = watch.iter().map(|h| observe_handle(&srv, h, &mut it)).collect();
+                let pre_views = views_of(&pre_obs);
+                let op: GOp = if scripted { script.remove(0) } else {
+                    let registered: Vec<String> = pre.pubs.iter().map(|(h, _)| h.clone()).filter(|h| universe.contains(h)).collect();
+                    let unregistered: Vec<String> = universe.iter().filter(|h| !registered.contains(h)).cloned().collect();
+                    match rng.weighted(&[60, 6, 12, 3, 5, 9]) {
+                        0 => {
+                            let h = if (registered.is_empty() || rng.chance(4)) && !unregistered.is_empty() { rng.pick(&unregistered).clone() }
+                                    else if !registered.is_empty() { rng.pick(&registered).clone() } else { rng.pick(&universe).clone() };
+                            let view: Vec<(String, u64)> = pre_views.get(&h).cloned().unwrap_or_default();
+                            let others: Vec<(String, Vec<(String, u64)>)> = universe.iter().filter(|o| **o != h)
+                                .map(|o| (o.clone(), pre_views.get(o).cloned().unwrap_or_default())).collect();
+                            let inner: Vec<&(String, Vec<(String, u64)>)> = others.iter()
+                                .filter(|(o, _)| jail_str(base, o).starts_with(&jail_str(base, &h)) && *o != h).collect();
+                            let target = if nested && !inner.is_empty() { Some((*rng.pick(&inner)).clone()) } else { None };
+                            let mut g = Gen { rng: &mut rng, next_content, scheme_case, fresh };
+                            let (els, kind) = gen_delta(&mut g, &mut it, base, &h, &view, &others, target.as_ref());
+                            next_content = g.next_content; fresh = g.fresh;
+                            GOp::Publish(h, els, kind)
+                        }
+                        1 => GOp::List(rng.pick(&universe).clone()),
+                        2 => GOp::Update,
+                        3 => GOp::Reset,
+                        4 => if !registered.is_empty() && rng.chance(85) { GOp::Remove(rng.pick(&registered).clone()) } else { GOp::Remove(rng.pick(&universe).clone()) },
+                        _ => if !unregistered.is_empty() && rng.chance(85) { GOp::Create(rng.pick(&unregistered).clone()) } else { GOp::Create(rng.pick(&universe).clone()) },
+                    }
+                };
+                if !scripted { step_no += 1 }
+                if let Some(h) = match &op { GOp::Create(h) | GOp::Remove(h) | GOp::List(h) | GOp::Publish(h, _, _) => Some(h.clone()), _ => None } { watch.insert(h); }
+                let reply = execute(&srv, &op, &mut it);
+                let post = srv.observe(&mut it);
+                for (h, _) in post.pubs.iter() { watch.insert(h.clone()); }
+                for h in post.snap.keys().chain(post.staged.keys()) { watch.insert(h.clone()); }
+                let obs: Vec<HObs> = watch.iter().map(|h| observe_handle(&srv, h, &mut it)).collect();
+                let index = w.total;
+                let opname = json_op(&op)["op"].as_str().unwrap().to_string();
+                *op_hist.entry(opname.clone()).or_default() += 1;
+                let reply = match reply {
+                    Ok(r) => r,
+                    Err(e) => {
+                        impl_failures.push(json!({"index": Value::Null, "class": {"kind": "unexpected_error", "op": opname}, "what": e, "op": json_op(&op)}));
+                        pre = post;
+                        continue;
+                    }
+                };
+                *reply_hist.entry(if reply.starts_with("(RList") { "RList".to_string() } else { reply.clone() }).or_default() += 1;
+                // classification for known findings
+                let post_views = views_of(&obs);
+                let (pre_shared, _) = shared_nested(base, &pre_views);
+                let (_, post_nested) = shared_nested(base, &post_views);
+                let f10a = post_nested && !pre_shared;
+                let mut inco = state_has_incoherent(&pre) || state_has_incoherent(&post);
+                if let GOp::Publish(h, els, kind) = &op {
+                    inco = inco || els.iter().any(|e| incoherent(match e { GElem::Pub { uri, .. } | GElem::Upd { uri, .. } | GElem::Wdr { uri, .. } => uri }));
+                    *delta_hist.entry(kind.to_string()).or_default() += 1;
+                    if reply == "RDone" { *delta_accept.entry(kind.to_string()).or_default() += 1 }
+                    *size_hist.entry(els.len().to_string()).or_default() += 1;
+                    if reply == "RDone" {
+                        // which staged entries did the new elements meet (merge arms exercised)
+                        let st = pre.staged.get(h).cloned().unwrap_or_default();
+                        for e in els {
+                            let a = abstract_elem(e, &mut it);
+                            let key = |u: &AUri| (u.auth, u.module, u.modv, u.path.clone());
+                            let (nk, nu) = match &a { AElem::Pub(u, ..) => ("pub", u), AElem::Upd(u, ..) => ("upd", u), AElem::Wdr(u, ..) => ("wdr", u) };
+                            let met = st.iter().find(|s| key(match s { AElem::Pub(u, ..) | AElem::Upd(u, ..) | AElem::Wdr(u, ..) => u }) == key(nu))
+                                .map(|s| match s { AElem::Pub(..) => "pub", AElem::Upd(..) => "upd", AElem::Wdr(..) => "wdr" }).unwrap_or("none");
+                            *merge_hist.entry(format!("{nk}_on_{met}")).or_default() += 1;
+                        }
+                    }
+                }
+                let class = json!({"f10a": f10a, "incoherent": inco});
+                *class_hist.entry(format!("f10a={f10a},incoherent={inco}")).or_default() += 1;
+                let pre_term = coq_state(&pre, &mut it);
+                let op_term = coq_op(&op, &mut it);
+                let term = format!("mkCase {} {} {} {} {}", pre_term, op_term, coq_state(&post, &mut it), reply,
+                    coq_list(&obs.iter().map(|o| coq_obs(o, &mut it)).collect::<Vec<_>>()));
+                let nontrivial = match &op {
+                    GOp::Publish(_, els, _) => !els.is_empty(),
+                    GOp::Remove(_) | GOp::Update => pre_views.values().any(|v| !v.is_empty()) || pre.staged.values().any(|v| !v.is_empty()),
+                    _ => false,
+                };
+                if nontrivial {
+                    use std::hash::{Hash, Hasher};
+                    let mut hs = std::collections::hash_map::DefaultHasher::new();
+                    (&pre_term, &op_term).hash(&mut hs);
+                    distinct.insert(hs.finish());
+                }
+                let rec = json!({
+                    "index": index, "server": sidx, "base": base, "episode": episode_global, "publishers": universe,
+                    "request": json_op(&op), "reply": reply, "class": class,
+                    "registered_before": pre.pubs.iter().map(|(h, _)| h.clone()).collect::<Vec<_>>(),
+                    "views_before": pre_views.iter().map(|(h, v)| (h.clone(), v.iter().map(|(u, c)| format!("{u} #{c}")).collect::<Vec<_>>())).collect::<BTreeMap<_, _>>(),
+                    "staged_before": pre.staged_raw,
+                    "views_after": post_views.iter().map(|(h, v)| (h.clone(), v.iter().map(|(u, c)| format!("{u} #{c}")).collect::<Vec<_>>())).collect::<BTreeMap<_, _>>(),
+                    "staged_after": post.staged_raw,
+                    "serial_after": post.serial,
+                });
+                writeln!(jsonl, "{}", rec).unwrap();
+                if samples.len() < 5 && nontrivial && index % 211 == 7 { samples.push(rec); }
+                w.push(term);
+                pre = post;
+            }
+        }
     }
-    let shadow: WalStore<RepositoryContent> = WalStore::create(krill.storage(), PUBSERVER_CONTENT_NS).unwrap();
-    let h0 = MyHandle::from_str("0").unwrap();
-    let dump = |tag: &str| {
-        let c = shadow.get_latest(&h0).unwrap();
-        let v = serde_json::to_value(&*c).unwrap();
-        println!("{tag}: snapshot={} staged={} serial={}", v["rrdp"]["snapshot"]["publishers_current_objects"], v["rrdp"]["staged_elements"], v["rrdp"]["serial"]);
-    };
-    dump("start");
-    let alice = PublisherHandle::from_str("alice").unwrap();
-    let c1 = Bytes::from("content1"); let c2 = Bytes::from("content2");
-    let u1 = uri::Rsync::from_str("rsync://localhost/repo/alice/x.cer").unwrap();
-    let u2 = uri::Rsync::from_str("RSYNC://localhost/repo/alice/x.cer").unwrap();
-    let u3 = uri::Rsync::from_str("rsync://LOCALHOST/repo/alice/x.cer").unwrap();
-    let mut d = PublishDelta::empty();
-    d.add_publish(Publish::new(None, u1.clone(), Base64::from_content(&c1)));
-    let r = repo.rfc8181_message(&alice, publication::Query::Delta(d), &krill);
-    println!("pub u1: {:?}", r.map(|_| ()).map_err(|e| e.to_string()));
-    dump("after pub");
-    println!("update: {:?}", repo.update_rrdp_if_needed().map_err(|e| e.to_string()));
-    dump("after update");
-    // withdraw u1 (staged), then publish u2 (scheme variant)
-    let mut d = PublishDelta::empty();
-    d.add_withdraw(Withdraw::new(None, u1.clone(), Base64::from_content(&c1).to_hash()));
-    println!("wdr u1: {:?}", repo.rfc8181_message(&alice, publication::Query::Delta(d), &krill).map(|_| ()).map_err(|e| e.to_string()));
-    dump("after wdr");
-    let mut d = PublishDelta::empty();
-    d.add_publish(Publish::new(None, u2.clone(), Base64::from_content(&c2)));
-    println!("pub u2: {:?}", repo.rfc8181_message(&alice, publication::Query::Delta(d), &krill).map(|_| ()).map_err(|e| e.to_string()));
-    dump("after pub u2");
-    let l = repo.list(&alice).unwrap();
-    println!("list: {:?}", l.elements().iter().map(|e| e.uri().to_string()).collect::<Vec<_>>());
-    println!("update: {:?}", repo.update_rrdp_if_needed().map_err(|e| e.to_string()));
-    dump("after update2");
-    let l = repo.list(&alice).unwrap();
-    println!("list: {:?}", l.elements().iter().map(|e| e.uri().to_string()).collect::<Vec<_>>());
-    let mut d = PublishDelta::empty();
-    d.add_publish(Publish::new(None, u3.clone(), Base64::from_content(&c2)));
-    println!("pub u3: {:?}", repo.rfc8181_message(&alice, publication::Query::Delta(d), &krill).map(|_| ()).map_err(|e| e.to_string()));
-    let _ = Update::new(None, u3, Base64::from_content(&c2), Base64::from_content(&c1).to_hash());
-    let det = repo.get_publisher_details(alice.clone()).unwrap();
-    println!("details base={} files={:?}", det.base_uri, det.current_files.iter().map(|f| f.uri.to_string()).collect::<Vec<_>>());
-    println!("remove: {:?}", repo.remove_publisher(alice.clone(), &actor, &krill).map_err(|e| e.to_string()));
-    dump("after remove");
-    println!("list removed: {:?}", repo.list(&alice).map(|l| l.elements().len()).map_err(|e| e.to_string()));
-    println!("details removed: {:?}", repo.get_publisher_details(alice.clone()).map(|_| ()).map_err(|e| e.to_string()));
-    println!("reset: {:?}", repo.rrdp_session_reset().map_err(|e| e.to_string()));
-    dump("after reset");
-    println!("total {:?}", t0.elapsed());
+    w.flush();
+    let n_impl_failures = impl_failures.len();
+    let accepted: u64 = delta_accept.values().sum();
+    let deltas: u64 = delta_hist.values().sum();
+    write_json(&args.out.join("stats.json"), &json!({
+        "scenario": "c10", "seed": args.seed, "tier": args.tier, "episodes": episode_global, "servers": total_servers,
+        "nested_jails_generated": nested, "scheme_case_generated": scheme_case_requested,
+        "evaluations": w.total, "distinct_nontrivial": distinct.len(),
+        "rule": "episodes of 12..maxlen random requests (publish 60 %, list 6 %, RRDP update 12 %, session reset 3 %, remove 5 %, create 9 %) for 2-5 publishers with look-alike handles (alice, alice2, Alice, alice-2, a, a/b, a/b/c, a/bb, b, bob; with --nested 1 also nested pairs and ta) on real RepositoryManager instances (base rsync://localhost/repo/ and .../repo/base/); deltas of 1-8 elements in shuffled message order, URIs re-spelled in host case (18 %), module case (3 %) and with --schemecase 1 scheme case; delta classes: valid 60 %, wrong hash, publish-existing, update/withdraw-missing, outside jail (look-alike sibling, string prefix, parent, other module, other host, handle in other case), in another publisher's jail (incl. its existing objects with the right hash), bad last element after good ones, duplicate URI (malformed stream), empty. A case is one observed transition (complete pre-state, request, post-state, reply, list/details answers of every handle). Non-trivial = a publish with at least one element, or a remove/update while something is published or staged; distinct = distinct (pre-state, request) terms",
+        "op_distribution": op_hist, "reply_distribution": reply_hist,
+        "delta_class_distribution": delta_hist, "delta_class_accepted_distribution": delta_accept,
+        "delta_size_distribution": size_hist, "merge_arm_distribution": merge_hist, "finding_class_distribution": class_hist,
+        "deltas": deltas, "deltas_accepted": accepted,
+        "samples": samples, "impl_failures": impl_failures,
+    }));
+    println!("c10: {} cases from {} episodes on {} servers; {} deltas ({} accepted); impl failures {}", w.total, episode_global, total_servers, deltas, accepted, n_impl_failures);
+    0
 }
